@@ -66,9 +66,18 @@ def region_methods(prog):
     return ci
 
 
+class _Aliases(dict):
+    """name -> object for aliases of the level dictionary; .levels maps a
+    name bound ONCE to <obj>.pixeldict[<level>] (an alias of one level set)
+    to (object, level expression)"""
+    levels: dict
+
+
 def pixeldict_aliases(fnode):
-    """local names bound to self.pixeldict / other.pixeldict"""
-    al = {}
+    """local names bound to self.pixeldict / other.pixeldict, and (in
+    .levels) to a single level set of one of them"""
+    al = _Aliases()
+    al.levels = {}
     for n in walk_no_nested(fnode):
         if isinstance(n, ast.Assign) and len(n.targets) == 1 and \
                 isinstance(n.targets[0], ast.Name) and \
@@ -76,12 +85,47 @@ def pixeldict_aliases(fnode):
                 n.value.attr == "pixeldict" and \
                 isinstance(n.value.value, ast.Name):
             al[n.targets[0].id] = n.value.value.id
+    # level-set aliases: bound once, and the slot itself is never re-bound
+    # in this function (so the name keeps denoting the stored set)
+    binds = {}
+    for n in walk_no_nested(fnode):
+        if isinstance(n, ast.Assign):
+            for t in n.targets:
+                if isinstance(t, ast.Name):
+                    binds.setdefault(t.id, []).append(n)
+        elif isinstance(n, (ast.For, ast.AugAssign)):
+            t = n.target
+            for x in ast.walk(t):
+                if isinstance(x, ast.Name):
+                    binds.setdefault(x.id, []).append(n)
+    slot_rebound = any(
+        isinstance(n, ast.Assign) and any(
+            isinstance(t, ast.Subscript) and _is_dict(t.value, al)
+            for t in n.targets) for n in walk_no_nested(fnode))
+    if not slot_rebound:
+        for name, bs in binds.items():
+            if len(bs) == 1 and isinstance(bs[0], ast.Assign) and \
+                    isinstance(bs[0].value, ast.Subscript) and \
+                    _is_dict(bs[0].value.value, al):
+                b = bs[0].value.value
+                obj = b.value.id if isinstance(b, ast.Attribute) \
+                    else al[b.id]
+                al.levels[name] = (obj, bs[0].value.slice)
     return al
+
+
+def _is_dict(b, al):
+    return (isinstance(b, ast.Attribute) and b.attr == "pixeldict" and
+            isinstance(b.value, ast.Name)) or (
+        isinstance(b, ast.Name) and b.id in al)
 
 
 def levelset_owner(expr, aliases):
     """If expr denotes <obj>.pixeldict[<level>] (possibly through a local
-    alias of the dictionary) return (obj_name, level_expr) else None."""
+    alias of the dictionary, or of that one level set) return
+    (obj_name, level_expr) else None."""
+    if isinstance(expr, ast.Name):
+        return getattr(aliases, "levels", {}).get(expr.id)
     if not isinstance(expr, ast.Subscript):
         return None
     b = expr.value
